@@ -264,3 +264,7 @@ def run(ctx):
             'decorators are unwrapped completely (to the innermost __wrapped__) before the signature is read',
             'the callable is no longer unwrapped completely before its signature is read: for a function that already carries a '
             'functools.wraps pass-through decorator (*args, **kwargs) every parameter name is accepted', mf.loc(), instance='full-unwrap')
+  # which attributes count as registered methods of a class (shared with C13 / C19): `Class.method` addressing depends on it
+  from .c13 import method_detection
+  method_detection(ctx, 'C11.methods')
+  ctx.borrow('C13', 'C13.atomic', 'C11.lists', instances={'allowlist of wrong type', 'denylist of wrong type', 'both lists given'})
